@@ -162,9 +162,15 @@ def handleResolve (cs az opts : String) : String :=
       | some plain => explicit != [] || (resolveLazy plain a == o && resolve plain a == o)
       | none => true
     if !plainOk then "model-internal-mismatch" else
-    match o.normalize with
-    | .selected id => showSelected cands explicit a id
-    | o' => showOutcome o'
+    -- `write_function` / `write_method`: the casts are applied and the output arguments of the selected overload checked
+    match (finishCall cands explicit a o).normalize with
+    | .accepted id => showSelected cands explicit a id
+    | .refused .lvalueRequired => "lvreq"
+    | .refused .mutableRequired => "mutreq"
+    | .ambiguous ids => showOutcome (.ambiguous ids)
+    | .unmatched => showOutcome .unmatched
+    -- a selected id without viable casts contradicts `Thm.C16.selectedG_is_viable`
+    | .panic => if o == .panic then showOutcome .panic else "model-internal-mismatch"
   | _, _, _ => "bad-request"
 
 def handle (op : String) (args : List String) : String :=
